@@ -86,42 +86,36 @@ def verbosity(P, R):
     lg = P.need_fn('log_vmessage')
     sites = [s for s in stdout_sites(P) if s.fn is lg]
 
-    def on_edge(st, e):
-        r = rules.edge_rel(e)
-        if not r:
-            return st
-        v, sv = st
-        l, op, rr = r
-        c = const_of(rr)
-        if is_var(l, 'log_verbosity') and c is not None:
-            if op == '>' and c >= 1 or op == '>=' and c >= 2:
-                nv = 'high'
-            elif op == '==' and c == 1:
-                nv = 'one'
-            elif op == '==' and c >= 2:
-                nv = 'high'
-            elif (op == '<=' and c <= 1) or (op == '<' and c <= 2):
-                nv = 'notHigh' if v in (None, 'notHigh') else v
-            elif op == '!=' and c == 1:
-                nv = 'notOne' if v in (None,) else ('low' if v == 'notHigh' else v)
-            else:
-                nv = v
-            if v == 'notHigh' and nv == 'high':
-                return None
-            if v == 'notHigh' and op == '!=' and c == 1:
-                nv = 'low'
-            v = nv
-        if is_var(l) and l['name'] in lg.params and rr.get('k') == 'enum' and rr['name'] == 'LOG_WARNING':
-            if op in ('>=',):
-                sv = True
-            elif op == '<':
-                sv = False
-        return (v, sv)
-    before, _, _, _ = lg.forward((None, None), None, on_edge)
+    warn = P.enum_value('log_severity', 'LOG_WARNING')
+    if warn is None:
+        raise AnalysisBroken('LOG_WARNING has vanished')
+    sevp = [p['name'] for p in lg.param_info if 'log_severity' in p.get('t', '')]
+
+    def ident(e):
+        if is_var(e, 'log_verbosity'):
+            return 'v'
+        if is_var(e) and e['name'] in sevp:
+            return 's'
+        return None
+
+    def kill(t):
+        out = []
+        if t.ev['k'] == 'store' and is_var(t.ev.get('lhs')):
+            if t.ev['lhs']['name'] == 'log_verbosity':
+                out.append('v')
+            if t.ev['lhs']['name'] in sevp:
+                out.append('s')
+        return out
+    before = rules.interval_forward(lg, ident, window=(-4, 12), kill=kill)
     for s in sites:
         sts = before.get(s.key, set())
-        ok = bool(sts) and all(v == 'high' or (v == 'one' and sv is True) for v, sv in sts)
-        R.ob('C09.GRD.1', ok, s, 'the console copy of a log message is written only with verbosity > 1, or == 1 for warnings and above (states: %s)' % sorted(map(str, sts)),
+        bad = []
+        for st in sts:
+            vlo, vhi = rules.interval_of(st, 'v', (-4, 12))
+            slo, shi = rules.interval_of(st, 's', (-4, 12))
+            if not (vlo >= 2 or (vlo == 1 and slo >= warn)):
+                bad.append('verbosity in [%s,%s], severity in [%s,%s]' % (vlo, vhi, slo, shi))
+        R.ob('C09.GRD.1', bool(sts) and not bad, s, 'the console copy of a log message is written only with verbosity > 1, or == 1 for warnings and above%s' % ((' (reached with ' + '; '.join(sorted(set(bad))) + ')') if bad else ''),
              key='console-gated')
     R.ob('C09.GRD.1', len(sites) >= 1, sites[0] if sites else lg, 'the logger has a console write', key='console-exists', nontrivial=False)
     # writers of log_verbosity
